@@ -1,6 +1,7 @@
 package main
 
 import (
+	"os"
 	"fmt"
 	"go/token"
 	"go/types"
@@ -512,6 +513,9 @@ func (g *Gen) callWithSpec(st *State, c *ssa.Call, sp *FuncSpec, fn *ssa.Functio
 	// frame
 	if sp.HasMod {
 		g.applyDeclaredMods(st, env, sp)
+		if !sp.ModAll {
+			g.freshAllocHavoc(st, pre, c, fn)
+		}
 	} else if fn != nil {
 		g.frameCheckOpaqueCall(st, c, g.P.modSetOf(fn), calleeName)
 		g.applyModSet(st, g.P.modSetOf(fn))
@@ -536,6 +540,72 @@ func (g *Gen) callWithSpec(st *State, c *ssa.Call, sp *FuncSpec, fn *ssa.Functio
 		g.frameCheckCall(st, pre, c, sp, env, calleeName)
 	}
 	return res
+}
+
+// freshAllocHavoc: a callee with a declared frame may still allocate objects / arrays and initialise them; the
+// declared frame is silent about those.  The pointer- and array-valued heap arrays it may write get a new version
+// that agrees with the old one on everything that existed before the call (and obeys the range axiom of the
+// post-state), so a cell of a fresh object can hold a fresh address.
+func (g *Gen) freshAllocHavoc(st *State, pre *State, c *ssa.Call, fn *ssa.Function) {
+	fs := &freshSet{Names: map[string]bool{}}
+	if fn != nil {
+		fs = g.P.freshPtrNames(fn)
+	} else if c.Common().IsInvoke() {
+		for _, im := range g.P.implementations(c.Common()) {
+			o := g.P.freshPtrNames(im)
+			if o.All {
+				fs.All = true
+			}
+			for n := range o.Names {
+				fs.Names[n] = true
+			}
+		}
+	} else {
+		return
+	}
+	names := map[string]bool{}
+	for n := range fs.Names {
+		names[n] = true
+	}
+	if fs.All {
+		for n := range g.heapSort {
+			if g.P.isPtrHeapName(n) || g.heapKind[n] == KPtr || g.heapKind[n] == KIface {
+				names[n] = true
+			}
+		}
+		for n := range g.P.heapKinds {
+			names[n] = true
+		}
+	}
+	if os.Getenv("GVC_DEBUG_FRESH") != "" && len(names) > 0 {
+		fmt.Fprintf(os.Stderr, "FRESH-HAVOC in %s at call %s: %v\n", g.fnName(), g.textAt(c.Pos()), sortedKeys(names))
+	}
+	bp, ap := g.brk(pre), g.abrk(pre)
+	for _, name := range sortedKeys(names) {
+		srt, ok := g.heapSort[name]
+		if !ok {
+			srt = g.P.sortOfHeapName(name)
+			if srt == "" {
+				continue
+			}
+			g.setHeapSort(name, srt)
+		}
+		if k, ok := g.P.heapKinds[name]; ok {
+			g.noteKind(name, k)
+		}
+		old := g.heapSym(st.heap, name)
+		nw := g.fresh(name, srt)
+		switch srt {
+		case "(Array Int Int)":
+			g.emit(fmt.Sprintf("(assert (forall ((p Int)) (! (=> (< p %s) (= (select %s p) (select %s p))) :pattern ((select %s p)))))", bp, nw, old, nw))
+		case "(Array Int (Array Int Int))":
+			g.emit(fmt.Sprintf("(assert (forall ((a Int)) (! (=> (< a %s) (= (select %s a) (select %s a))) :pattern ((select %s a)))))", ap, nw, old, nw))
+		default:
+			continue
+		}
+		st.heap.m[name] = nw
+		g.rangeAxiom(st.heap, name, nw)
+	}
 }
 
 // dropGlobalInvs removes the conjuncts of e that are applications of a macro declared `globalinv`.
@@ -669,6 +739,21 @@ func (g *Gen) havocLoc(st *State, env *Env, e *SExpr) {
 		if e.Name == "object" { // object(p): every field of *p
 			p := g.eval(env, e.Args[0])
 			g.havocStruct(st, deref(p.T), p.S)
+			return
+		}
+		if e.Name == "nested" { // nested(s): the elements of the slices that are elements of s (in-place growth of a bucket)
+			s := g.eval(env, e.Args[0])
+			it := elemTypeOf(elemTypeOf(s.T))
+			if kindOf(it) == KStruct || kindOf(it) == KArray {
+				unsup("modifies nested(): element type %s", it)
+			}
+			// over-approximation: the whole element memory of the inner type becomes arbitrary (constant arrays keep
+			// their contents); callers lose facts about other arrays of that element type, never gain any
+			sfx, kinds := leafComps(it)
+			for i, sf := range sfx {
+				old, nw := g.setMem(st, it, sf, kinds[i])
+				g.constFrame(old, nw)
+			}
 			return
 		}
 		unsup("modifies item %s", e)
